@@ -223,6 +223,14 @@ def run_impl(cases, hashseed="0", timeout=3000, extra_env=None, jobs=None):
     return res
 
 
+def run_impl_fresh(cases, hashseed="0", timeout=600, jobs=8):
+    """every case in an interpreter process of its own (nothing any earlier case did can be seen)"""
+    from concurrent.futures import ThreadPoolExecutor
+
+    with ThreadPoolExecutor(max_workers=jobs) as ex:
+        return [r[0] for r in ex.map(lambda c: run_impl([c], hashseed=hashseed, timeout=timeout, jobs=1), cases)]
+
+
 # ----------------------------------------------------------------------------- evidence / verdict
 def load_known():
     p = os.path.join(VERIF, "known_findings.json")
